@@ -26,7 +26,9 @@ RULE = ("case = (1-2 tensors over a 1-3 rank loop nest, each Format tensor built
         "give the declared authoritative shape - declared directly, swizzleRanks from a source rotated left/right "
         "(3-cycles for 3 ranks), fromFiber of another tensor's root with/without restated shape, "
         "Tensor(rank_ids, shape).setRoot(other root) - with stored values in the shared value modes and optional "
-        "read-only queries before use; 1-3 bindings (tensor, rank, coord/payload/elem, element "
+        "read-only queries before use; positions, coordinates and stamps from small pools or pools of one to three "
+        "digits mixed (rank shapes 2-6 or 11-120); the dictionaries handed to the traffic models (trace_fns, formats) "
+        "in one of four insertion orders (as built, write traces first, reversed, shuffled); 1-3 bindings (tensor, rank, coord/payload/elem, element "
         "bits, evict-on root or an outer/own rank) each with a synthetic read and/or write trace cut from one "
         "random sparse loop-nest iteration (positions in and beyond the rank's shape), line size of 1-4 elements, "
         "a buffet capacity, 0-3 ascending cache capacities from 0 to unbounded, an input/filter trace pair); "
@@ -60,16 +62,23 @@ EXPLANATION = ("theorems: combine = stable sort; filter = membership filter; nex
 
 # ------------------------------------------------------------------ generator
 
-def gen_iterations(rng, Lr):
-    """a random sparse loop nest: list of (stamp, coords), stamps strictly increasing lexicographically"""
+POOLS = [list(range(6)), list(range(6)),
+         [0, 1, 2, 5, 9, 10, 11, 19, 20, 99, 100, 101, 119],      # one, two and three digits mixed
+         [7, 8, 9, 10, 11, 12, 98, 99, 100, 110, 111]]
+
+
+def gen_iterations(rng, Lr, pool=None):
+    """a random sparse loop nest: list of (stamp, coords), stamps strictly increasing lexicographically;
+    positions and coordinates come from `pool` (small numbers, or numbers of one to three digits)"""
     out = []
+    pool = pool or list(range(6))
 
     def rec(d, st, co):
         if d == Lr:
             out.append((st, co))
             return
         n = rng.choice([1, 2, 2, 3, 4]) if d else rng.choice([1, 2, 3, 4])
-        pos = sorted(rng.sample(range(6), min(n, 6)))
+        pos = sorted(rng.sample(pool, min(n, len(pool))))
         for p in pos:
             c = p if rng.random() < 0.5 else (p * 2 + rng.randint(0, 1))
             rec(d + 1, st + [p], co + [c])
@@ -139,13 +148,15 @@ def has_staging(case):
 
 def gen_case(rng, ties=None, nb=None):
     Lr = rng.choice([1, 2, 2, 3, 3])
-    iters = gen_iterations(rng, Lr)
+    pool = rng.choice(POOLS)
+    wide = len(pool) != 6
+    iters = gen_iterations(rng, Lr, pool)
     nt = rng.choice([1, 1, 2])
     tensors = []
     for _ in range(nt):
         k = rng.randint(1, Lr)
         ranks = sorted(rng.sample(range(Lr), k))
-        shape = [rng.randint(2, 6) for _ in ranks]
+        shape = [rng.choice([rng.randint(2, 6), rng.randint(11, 120)]) if wide else rng.randint(2, 6) for _ in ranks]
         # how the Format's tensor is built (c17_util.build_tensor) and what it stores; not part of the Coq case:
         # the authoritative shape is the declared one along every path
         pts = sorted({tuple(rng.randrange(s) for s in shape) for _ in range(rng.randint(1, 4))})
@@ -191,8 +202,11 @@ def gen_case(rng, ties=None, nb=None):
     ncap = rng.choice([1, 2, 3])
     caps = sorted(rng.sample(lines, ncap))
     caps = [c * line + (rng.choice([0, 0, line // 2]) if c else 0) for c in caps]
+    # "dorder": insertion order of the dictionaries handed to the traffic models (trace_fns, formats); a correct
+    # implementation does not depend on it, the Coq case does not contain it (c17_util.reorder)
     case = {"L": Lr, "tensors": tensors, "bindings": bindings, "line": line,
-            "bcap": rng.choice(lines) * line, "caps": caps, "fin": None, "ffil": None, "fn": 1, "ffn": 1}
+            "bcap": rng.choice(lines) * line, "caps": caps, "fin": None, "ffil": None, "fn": 1, "ffn": 1,
+            "dorder": rng.randrange(4)}
     if rng.random() < 0.5:
         gen_filter(rng, case)
     t = has_ties(case)
@@ -269,15 +283,16 @@ def gen_built(rng):
 def gen_filter(rng, case):
     n = rng.choice([1, 2, 2])
     m = n + rng.choice([0, 0, 1])
-    pts_in = sorted(set(tuple(rng.randint(0, 3) for _ in range(n)) for _ in range(rng.randint(0, 7))))
-    pts_f = sorted(tuple(rng.randint(0, 3) for _ in range(m)) for _ in range(rng.randint(0, 9)))
+    pool = rng.choice([[0, 1, 2, 3], [0, 1, 2, 3], [0, 1, 2, 5, 9, 10, 11, 19, 20, 100, 119], [3, 9, 10, 12, 100]])
+    pts_in = sorted(set(tuple(rng.choice(pool) for _ in range(n)) for _ in range(rng.randint(0, 7))))
+    pts_f = sorted(tuple(rng.choice(pool) for _ in range(m)) for _ in range(rng.randint(0, 9)))
     if rng.random() < 0.5:      # filter derived from the input: some rows kept, some extra
-        pts_f = sorted([p + tuple(rng.randint(0, 2) for _ in range(m - n)) for p in pts_in if rng.random() < 0.6]
+        pts_f = sorted([p + tuple(rng.choice(pool[:3]) for _ in range(m - n)) for p in pts_in if rng.random() < 0.6]
                        + pts_f[:3])
     if m > n:
         pts_f = sorted(set(pts_f))
     case["fin"] = [[list(p), list(p), rng.randint(0, 5)] for p in pts_in]
-    case["ffil"] = [[list(p), list(p), rng.randint(0, 5)] for p in pts_f]
+    case["ffil"] = [[list(p), list(p), rng.randint(0, 130)] for p in pts_f]
     case["fn"], case["ffn"] = n, m
 
 
@@ -346,7 +361,10 @@ def describe(case):
             "multi_elem_line": any(case["line"] // b["foot"] > 1 for b in case["bindings"]),
             "cache_runs": len(case["caps"]), "ties": has_ties(case), "filter": case["fin"] is not None,
             "tensor_build": ",".join(str(t.get("build", 0)) for t in case["tensors"]),
-            "staging_and_two_caps": has_staging(case) and len(case["caps"]) >= 2}
+            "staging_and_two_caps": has_staging(case) and len(case["caps"]) >= 2,
+            "dict_order": case.get("dorder", 0),
+            "multi_digit": any(v >= 10 for b in case["bindings"] for r in (b["read"] or []) + (b["write"] or [])
+                               for v in r[0] + r[1] + [r[2]])}
 
 
 # ------------------------------------------------------------------ Coq literal
